@@ -1,6 +1,7 @@
 """Harness-owned Cache / Storage implementations installed through labtech's
 public extension points (docs/caching.md)."""
 import json
+import io
 import os
 from pathlib import Path
 
@@ -95,7 +96,48 @@ class MemoryFsspecStorage(FsspecStorage):
         return MemoryFileSystem()
 
 
+class _UploadBytes(io.BytesIO):
+    def __init__(self, path):
+        super().__init__()
+        self._path = path
+
+    def close(self):
+        if not self.closed:
+            data = self.getvalue()
+            self._path.parent.mkdir(parents=True, exist_ok=True)
+            with open(self._path, 'wb') as f:
+                f.write(data)
+        super().close()
+
+
+class _UploadText(io.StringIO):
+    def __init__(self, path):
+        super().__init__()
+        self._path = path
+
+    def close(self):
+        if not self.closed:
+            data = self.getvalue()
+            self._path.parent.mkdir(parents=True, exist_ok=True)
+            with open(self._path, 'w') as f:
+                f.write(data)
+        super().close()
+
+
+class UploadOnCloseStorage(LocalStorage):
+    """A storage provider of the object-store kind: what is written to a handle only becomes a stored file when the
+    handle is CLOSED (whenever and by whomever - also by the garbage collector)."""
+
+    def file_handle(self, key, filename, *, mode='r'):
+        if 'w' in mode and '+' not in mode:
+            path = self._key_to_path(key) / filename
+            return _UploadBytes(path) if 'b' in mode else _UploadText(path)
+        return super().file_handle(key, filename, mode=mode)
+
+
 def make_storage(kind, path):
+    if kind == 'upload':
+        return UploadOnCloseStorage(path)
     if kind == 'local':
         return LocalStorage(path)
     if kind == 'rec':
